@@ -13,7 +13,9 @@ Transcribes (operand order is the Go order, so that the `Float` run is bit-for-b
   `Matrix3.{Det,InvertInPlace,MulColumn}`, `Matrix2.{Det,InvertInPlaceDet,MulColumn}`;
 * `templates/sdf.template` ⇒ `sdf.go`: `meshSDF` (sign from `ColliderSolid.Contains` = bounds test and
   ray-collision parity, magnitude from `meshDistFunc.Dist` — here the linear scan it is proved equal to in
-  C08), `profileSDF.SDF`, `profilePointSDF.PointSDF`, `colliderSDF.SDF`.
+  C08), `profileSDF.SDF`, `profilePointSDF.PointSDF`, `colliderSDF.SDF`;
+* `templates/transform.template` ⇒ `transform.go`: `Translate`, `Scale`, `orthoMatrix{3,2}Transform`, `JoinedTransform`
+  (`Apply`, `ApplyDistance`, `Inverse`), `TransformSDF`, `transformedCollider.SphereCollision/CircleCollision`.
 
 Core Lean only.  Generic over the scalar `α`; `math.Sqrt` and the float literals `1e-5`, `0.5` come in
 through `Env`.  `math.Inf(1)` as the initial value of a running minimum is `none`.  A Go `x == 0` on a value
@@ -736,6 +738,47 @@ def colliderSDF (two : α) (coll : α → Bool) (contains : Bool) (iters : Nat) 
   let r := bisectLoop two coll iters b.1 b.2
   let res := (r.1 + r.2) / two
   if contains then res else res * (-1)
+
+/-! ## `Contains`, bounds and ball queries of the primitives -/
+
+/-- `Coord3D.AddScalar` -/
+def V3.addScalar (c : V3 α) (s : α) : V3 α := ⟨c.x + s, c.y + s, c.z + s⟩
+def V2.addScalar (c : V2 α) (s : α) : V2 α := ⟨c.x + s, c.y + s⟩
+
+/-- `Sphere.Contains` -/
+def sphereContains (E : Env α) (center : V3 α) (r : α) (c : V3 α) : Bool := decide (c.dist E center ≤ r)
+/-- `Circle.Contains` -/
+def circleContains (E : Env α) (center : V2 α) (r : α) (c : V2 α) : Bool := decide (c.dist E center ≤ r)
+/-- 3-D `Capsule.Contains` (`NewSegment(P1, P2).Dist(c) <= Radius`) -/
+def capsuleContains3 (E : Env α) (p1 p2 : V3 α) (r : α) (c : V3 α) : Bool :=
+  decide (segDist3 E (newSegment3 p1 p2).1 (newSegment3 p1 p2).2 c ≤ r)
+/-- 2-D `Capsule.Contains` (`Segment{P1, P2}.Dist(c) <= Radius`) -/
+def capsuleContains2 (E : Env α) (p1 p2 : V2 α) (r : α) (c : V2 α) : Bool := decide (segDist2 E p1 p2 c ≤ r)
+
+/-- `Cylinder.Contains` -/
+def cylinderContains (E : Env α) (p1 p2 : V3 α) (r : α) (p : V3 α) : Bool :=
+  let diff := p1.sub p2
+  let direction := diff.normalize E
+  let frac := (p.sub p2).dot direction
+  if frac < 0 ∨ diff.norm E < frac then false
+  else decide ((p2.add (direction.scale frac)).dist E p ≤ r)
+
+/-- `Sphere.SphereCollision(c, r)`: `math.Abs(s.SDF(c)) <= r` — the ball query `ColliderToSDF` bisects on -/
+def sphereBall (E : Env α) (center : V3 α) (r0 : α) (c : V3 α) (r : α) : Bool :=
+  decide (absS (sphereSDF E center r0 c) ≤ r)
+/-- `Circle.CircleCollision(c, r)` -/
+def circleBall (E : Env α) (center : V2 α) (r0 : α) (c : V2 α) (r : α) : Bool :=
+  decide (absS (circleSDF E center r0 c) ≤ r)
+
+/-- `Sphere.Min/Max`, `Circle.Min/Max`, `Capsule.Min/Max` (`Rect.Min/Max` are the fields) -/
+def sphereMin (center : V3 α) (r : α) : V3 α := center.addScalar (-r)
+def sphereMax (center : V3 α) (r : α) : V3 α := center.addScalar r
+def circleMin (center : V2 α) (r : α) : V2 α := center.addScalar (-r)
+def circleMax (center : V2 α) (r : α) : V2 α := center.addScalar r
+def capsuleMin3 (p1 p2 : V3 α) (r : α) : V3 α := (p1.vmin p2).addScalar (-r)
+def capsuleMax3 (p1 p2 : V3 α) (r : α) : V3 α := (p1.vmax p2).addScalar r
+def capsuleMin2 (p1 p2 : V2 α) (r : α) : V2 α := (p1.vmin p2).addScalar (-r)
+def capsuleMax2 (p1 p2 : V2 α) (r : α) : V2 α := (p1.vmax p2).addScalar r
 
 /-! ## Transforms (`templates/transform.template`) and the fields derived through them
 
